@@ -110,4 +110,47 @@ def parseTyped (P : Prims) (d : Decl) (v : PyVal) : M PyVal := do
 def declOf (mro : List Body) (args : Option (PyVal → M PyVal)) (acc : PyVal → Bool) (post : PyVal → M PyVal) : Decl :=
   { validators := compile mro, args := args, cont := containsCfg mro, acc := acc, post := post }
 
+/-! ### `Sub[item]` — parametrising a (sub)class (`Rule.__class_getitem__`, rule.py:1194-1205, and the re-binding of the
+helper for every subclass in `__init_subclass__`, rule.py:1309-1319): `cls.annotate(cls.__origin__, *args)` is
+`LogicalType(name, (cls,), {__args__: args})`, i.e. one more class body — binding `__args__` only — in front of the MRO of
+**the class that was subscripted** (not of the base the helper was first created for). -/
+
+def argsBody (args : PyVal) (ellipsis : Bool) : Body :=
+  [("__args__", .val args false)] ++ (if ellipsis then [("__ellipsis_args__", .val (.bool true) false)] else [])
+
+def getitemMro (mro : List Body) (args : PyVal) (ellipsis : Bool) : List Body := argsBody args ellipsis :: mro
+
+/-! ### a declared type as a member of a union (`T | None`, `Optional[T]`, `Union[T, U]`; `logical_parse`, rule.py:382-424)
+on a value of T's origin type.  Stage 1 is `type(value) == con` with `con` the member *itself*: a member that is a Rule
+class is never the class of a plain value, whatever its origin is; only a plain class member can short-cut.  Then up to
+three passes (strict, no-loss, lenient) call the members' parsers in order; the first success wins. -/
+
+inductive Member where
+  | rule (parse : Nat → PyVal → M PyVal)          -- a constrained type: its parse at stage i
+  | plain (c : Cls) (conv : Nat → PyVal → M PyVal) -- a plain class: its converter at stage i
+
+def Member.exact : Member → PyVal → Bool
+  | .rule _, _ => false
+  | .plain c _, v => typeOf v == c
+
+def Member.run : Member → Nat → PyVal → M PyVal
+  | .rule p, i, v => p i v
+  | .plain _ conv, i, v => conv i v
+
+/-- one pass: the first member whose parser accepts -/
+def tryMembers (i : Nat) (v : PyVal) : List Member → Option PyVal
+  | [] => none
+  | m :: ms => match m.run i v with
+    | .ok r => some r
+    | .error _ => tryMembers i v ms
+
+def tryStages (v : PyVal) (ms : List Member) : List Nat → M PyVal
+  | [] => throw .valueError
+  | i :: is => match tryMembers i v ms with
+    | some r => pure r
+    | none => tryStages v ms is
+
+def unionParse (ms : List Member) (stages : List Nat) (v : PyVal) : M PyVal :=
+  if ms.any (fun m => m.exact v) then pure v else tryStages v ms stages
+
 end Utv.C02D
